@@ -5,9 +5,9 @@
    (1) sp_core unit test verify_from_old_wasm_works: key of the all-zero seed, "SUBSTRATE", a
        schnorrkel 0.1.1 signature -- accepted by Substrate's verify_deprecated, rejected by
        VerifyDeprecated as found (it used the current labels on the pre-audit transcript).
-   (2) the sr25519-crust signature with its marker bit cleared: Substrate's verify_deprecated
-       treats it as a pre-audit signature and rejects it; VerifyDeprecated as found ignored the
-       bit and accepted it.
+   (2) (evaluated in VectorsSr25519.v, outside the closure of Properties.v) the sr25519-crust
+       signature with its marker bit cleared: Substrate's verify_deprecated treats it as a
+       pre-audit signature and rejects it; VerifyDeprecated as found ignored the bit and accepted it.
    (3) the identity key 00..00 with the signature R = 00..00, s = 0, marker bit: valid for
        Substrate, an error in go-schnorrkel.
    (4) ext_crypto_sr25519_verify_version_1 as found answered 1 for a forged unmarked signature,
@@ -33,11 +33,6 @@ Definition crust_pk := be_bytes 32 0x46ebddef8cd9bb167dc30878d7113b7e168e6f0646b
 Definition crust_msg : list byte := Eval vm_compute in list_byte_of_string "this is a message".
 Definition crust_sig := be_bytes 64 0x4e172314444b8f820bb54c22e95076f220ed25373e5c178234aa6c211d29271244b947e3ff3418ff6b45fd1df1140c8cbff69fc58ee6dc96df70936a2bb74b82.
 Definition crust_sig_unmarked := be_bytes 64 0x4e172314444b8f820bb54c22e95076f220ed25373e5c178234aa6c211d29271244b947e3ff3418ff6b45fd1df1140c8cbff69fc58ee6dc96df70936a2bb74b02.
-
-Lemma w2a : sr25519_verify_deprecated_ref crust_pk crust_msg crust_sig_unmarked = false.
-Proof. vm_cast_no_check (eq_refl false). Qed.
-Lemma w2b : sr25519_verify_deprecated_prefix crust_pk crust_sig_unmarked crust_msg = VOk.
-Proof. vm_cast_no_check (eq_refl VOk). Qed.
 
 Definition zero_pk : list byte := zeros 32.
 Definition zero_sig : list byte := zeros 63 ++ [n2b 128].
